@@ -244,7 +244,7 @@ def c03(k, ctx):
     posts = [r for r in recs if r["e"] == "Post" and r["o"] == "ok"]
     reached = sum(1 for r in posts if r["rounds"] >= r["diam"])
     ctx.extra["posterior_cases_run_to_the_diameter"] = reached
-    if posts and reached * 10 < len(posts) * 9:
+    if posts and reached * 10 < len(posts) * 9 and not rej:      # (with rejected cases the run ends in VIOLATION lines anyway)
         # the wrapper that keeps the decoder iterating no longer works with this decoder: the posterior clause would be judged on (almost) nothing
         raise k.ToolError(f"vacuous run: only {reached} of {len(posts)} Post cases were run for at least graph-diameter iterations")
     ctx.extra["decode_verdicts"] = {v: sum(1 for r in recs if r["e"] == "Decode" and r.get("verdict") == v) for v in ("ok", "err")}
